@@ -20,6 +20,11 @@ import (
 type readerObj struct{ src value }
 
 type decObj struct {
+	harness  bool     // tokens supplied by a harness (zzvTokenDecoder)
+	hstack   []xtok   // harness mode: start elements still open
+	outer    []string // harness mode: enclosing elements already open at the start
+	closeAll bool     // harness mode: after the tokens everything open is closed, then io.EOF; else a syntax error follows
+	closing  bool
 	toks   []xtok
 	pos    int
 	scopes []map[string]string
@@ -59,7 +64,7 @@ func tokensOfConcrete(data []byte) ([]xtok, error) {
 		case xml.StartElement:
 			tok := xtok{kind: tkStart, name: rawName(t.Name)}
 			for _, a := range t.Attr {
-				tok.attrs = append(tok.attrs, xattr{rawName(a.Name), a.Value})
+				tok.attrs = append(tok.attrs, xattr{name: rawName(a.Name), val: a.Value})
 			}
 			out = append(out, tok)
 		case xml.EndElement:
@@ -184,7 +189,14 @@ func (d *decObj) next(fr *frame) value {
 	d.calls++
 	if d.err != nil {
 		d.afterErr++
+		if d.afterErr > 3 {
+			// a decoder error is sticky: a loop that keeps asking can never leave
+			panic("hang: the reader keeps calling Decoder.Token() after it returned an error (" + fr.fn.Name() + ")")
+		}
 		return tuple{iface{}, d.err}
+	}
+	if d.harness {
+		return d.nextHarness(fr)
 	}
 	if d.pos >= len(d.toks) {
 		if d.tail != nil {
@@ -243,6 +255,146 @@ func (d *decObj) next(fr *frame) value {
 		return tuple{iface{i.xmlType("Comment"), bytesValue(x, t.text)}, iface{}}
 	}
 	panic(enginePanic{"decoder: bad token kind"})
+}
+
+const mainNS = "http://schemas.openxmlformats.org/wordprocessingml/2006/main"
+
+// nextHarness: token stream supplied by zzvTokenDecoder. End elements take the name of the
+// start element they close (the real decoder rejects anything else), the stream ends as the
+// real one does: with the closing tags of everything open and io.EOF, or with a syntax error.
+func (d *decObj) nextHarness(fr *frame) value {
+	i := fr.i
+	if d.pos >= len(d.toks) {
+		if !d.closeAll {
+			d.err = i.mkError("XML syntax error: unexpected EOF")
+			return tuple{iface{}, d.err}
+		}
+		if !d.closing {
+			d.closing = true
+			for k := len(d.hstack) - 1; k >= 0; k-- {
+				d.toks = append(d.toks, xtok{kind: tkEnd, pre: true, space: d.hstack[k].space, local: d.hstack[k].local})
+			}
+			d.hstack = nil
+			for k := len(d.outer) - 1; k >= 0; k-- {
+				d.toks = append(d.toks, xtok{kind: tkEnd, pre: true, space: mainNS, local: d.outer[k]})
+			}
+			d.toks = append(d.toks, xtok{kind: tkEnd, pre: true, space: "", local: "zzroot"})
+		}
+		if d.pos >= len(d.toks) {
+			d.err = i.foreignGlobalValue("io", "EOF")
+			return tuple{iface{}, d.err}
+		}
+	}
+	t := d.toks[d.pos]
+	d.pos++
+	switch t.kind {
+	case tkStart:
+		d.hstack = append(d.hstack, t)
+		attrs := make([]value, 0, len(t.attrs))
+		for _, a := range t.attrs {
+			attrs = append(attrs, structure{structure{a.space, a.local}, a.val})
+		}
+		return tuple{iface{i.xmlType("StartElement"), structure{structure{t.space, t.local}, attrs}}, iface{}}
+	case tkEnd:
+		if d.closing {
+			return tuple{iface{i.xmlType("EndElement"), structure{structure{t.space, t.local}}}, iface{}}
+		}
+		if len(d.hstack) == 0 {
+			panic(pathEnd{"harness token stream closes more than it opened"})
+		}
+		st := d.hstack[len(d.hstack)-1]
+		d.hstack = d.hstack[:len(d.hstack)-1]
+		return tuple{iface{i.xmlType("EndElement"), structure{structure{st.space, st.local}}}, iface{}}
+	case tkChar:
+		return tuple{iface{i.xmlType("CharData"), bytesValue(i.x, t.text)}, iface{}}
+	case tkComment:
+		return tuple{iface{i.xmlType("Comment"), bytesValue(i.x, t.text)}, iface{}}
+	}
+	panic(enginePanic{"harness decoder: bad token kind"})
+}
+
+const reXMLName = `(re.++ (re.union (re.range "A" "Z") (re.range "a" "z") (str.to_re "_")) ((_ re.loop 0 11) (re.union (re.range "A" "Z") (re.range "a" "z") (re.range "0" "9") (str.to_re "_"))))`
+const reXMLText = `((_ re.loop 0 16) (re.range " " "~"))`
+
+// newTokenDecoder implements zzvTokenDecoder(outer, toks, closeAll).
+func (x *exec) newTokenDecoder(outerV, toksV, closeAllV value) *decObj {
+	d := &decObj{harness: true}
+	if b, ok := closeAllV.(bool); ok {
+		d.closeAll = b
+	} else {
+		d.closeAll = x.decide(x.term(closeAllV))
+	}
+	ol, _ := outerV.([]value)
+	for _, o := range ol {
+		s, ok := o.(string)
+		if !ok {
+			panic(enginePanic{"zzvTokenDecoder: names of enclosing elements must be constant"})
+		}
+		d.outer = append(d.outer, s)
+	}
+	tb := x.tb
+	nameOK := func(v value) {
+		if sv, ok := v.(sym); ok {
+			x.assume(tb.InRe(sv.t, reXMLName))
+			x.assume(tb.Not(tb.Eq(sv.t, tb.StrC("xmlns"))))
+		}
+	}
+	textOK := func(v value) {
+		if sv, ok := v.(sym); ok {
+			x.assume(tb.InRe(sv.t, reXMLText))
+		}
+	}
+	space := func(v value) value {
+		b, ok := v.(bool)
+		if !ok {
+			b = x.decide(x.term(v))
+		}
+		if b {
+			return mainNS
+		}
+		return ""
+	}
+	tl, _ := toksV.([]value)
+	prevChar := false
+	for _, tv := range tl {
+		st := tv.(structure)
+		kind := int(asInt64(x.concretize(st[0], "token kind")))
+		switch kind {
+		case 0:
+			t := xtok{kind: tkStart, pre: true, space: space(st[1]), local: st[2]}
+			nameOK(st[2])
+			am, _ := st[3].([]value)
+			al, _ := st[4].([]value)
+			av, _ := st[5].([]value)
+			for k := range al {
+				nameOK(al[k])
+				textOK(av[k])
+				for j := 0; j < k; j++ {
+					x.assume(tb.Not(tb.Eq(x.term(al[k]), x.term(al[j]))))
+				}
+				t.attrs = append(t.attrs, xattr{pre: true, space: space(am[k]), local: al[k], val: av[k]})
+			}
+			d.toks = append(d.toks, t)
+			prevChar = false
+		case 1:
+			d.toks = append(d.toks, xtok{kind: tkEnd, pre: true})
+			prevChar = false
+		case 2:
+			if prevChar {
+				panic(pathEnd{"two adjacent character-data tokens (the real decoder merges them)"})
+			}
+			textOK(st[6])
+			x.assume(tb.Not(tb.Eq(x.term(st[6]), tb.StrC(""))))
+			d.toks = append(d.toks, xtok{kind: tkChar, pre: true, text: st[6]})
+			prevChar = true
+		case 3:
+			d.toks = append(d.toks, xtok{kind: tkComment, pre: true, text: "c"})
+			prevChar = false
+		default:
+			panic(enginePanic{"zzvTokenDecoder: token kind out of range"})
+		}
+	}
+	return d
 }
 
 func init() {
